@@ -33,9 +33,9 @@ RECURSIVE QPow(_, _)
 QPow(q, k) == IF k = 0 THEN QId ELSE IF k < 0 THEN QPow(QConj(q), -k) ELSE QMul(q, QPow(q, k - 1))
 
 (* 3x3 explicit products *)
-M3Mul(A, B) == [i \in 1..3 |-> [j \in 1..3 |-> A[i][1]*B[1][j] + A[i][2]*B[2][j] + A[i][3]*B[3][j]]]
-M3Vec(A, v) == [i \in 1..3 |-> A[i][1]*v[1] + A[i][2]*v[2] + A[i][3]*v[3]]
-M3T(A)      == [i \in 1..3 |-> [j \in 1..3 |-> A[j][i]]]
+M3Mul(A, B) == FM([i \in 1..3 |-> [j \in 1..3 |-> A[i][1]*B[1][j] + A[i][2]*B[2][j] + A[i][3]*B[3][j]]])
+M3Vec(A, v) == Fv([i \in 1..3 |-> A[i][1]*v[1] + A[i][2]*v[2] + A[i][3]*v[3]])
+M3T(A)      == FM([i \in 1..3 |-> [j \in 1..3 |-> A[j][i]]])
 I3          == << <<1,0,0>>, <<0,1,0>>, <<0,0,1>> >>
 Z3          == << <<0,0,0>>, <<0,0,0>>, <<0,0,0>> >>
 
